@@ -1,6 +1,7 @@
 //! vh: correspondence harness.  `vh <component> <seed> <count> [args]` prints one line per case:
 //!   <input numbers>\t<implementation output numbers>\t<signature>
 //! The input numbers start with the component number understood by `mrun` (the extracted model).
+mod base;
 mod broadcast;
 mod codec;
 mod handle;
@@ -17,6 +18,7 @@ mod robs_vec;
 mod io;
 mod rng;
 mod rwlock;
+mod settle;
 mod robs_map;
 mod robs_set;
 mod rtc;
@@ -207,6 +209,7 @@ fn main() {
         "rwlock" => rwlock::run(seed, count, &extra, &mut out),
         "watch" => watch::run(seed, count, &extra, &mut out),
         "halves" => halves::run(seed, count, &extra, &mut out),
+        "base" => base::run(seed, count, &extra, &mut out),
         _ => {
             eprintln!("unknown component {comp}");
             std::process::exit(2);
